@@ -501,7 +501,7 @@ func c41WriteRequest(w *bytes.Buffer, method string, params arrow.RecordBatch, e
 
 func c41Gen(g *Gen) {
 	r := g.Rng
-	n := g.N(120, 2500)
+	n := g.N(400, 8000)
 	for i := 0; i < n; i++ {
 		var lines []string
 		for k := r.Range(2, 7); k > 0; k-- {
